@@ -172,9 +172,13 @@ fn run_writer(s: &WriterScenario, path: &std::path::Path, pattern: u64, limit: u
                     w.push((i as u64).wrapping_mul(0x9E37_79B9_7F4A_7C15) ^ pattern);
                 }
             });
-            // The limit stays in force: whatever is called next on the same writer, a close() that returns
-            // Ok claims a complete file.
+            // The limit stays in force: a writer that still says it is open and then returns Ok from close()
+            // claims a complete file. (A writer that closed itself on the failure has reported it; closing a
+            // closed writer has no effect by documentation.)
             if pushed.is_err() {
+                if !w.is_open() {
+                    return "push: panic; (closed)".to_string();
+                }
                 return match w.close() {
                     Ok(()) => "push: panic; close: Ok".to_string(),
                     Err(_) => "push: panic; close: Err".to_string(),
@@ -182,6 +186,7 @@ fn run_writer(s: &WriterScenario, path: &std::path::Path, pattern: u64, limit: u
             }
             match w.close() {
                 Ok(()) => "success".to_string(),
+                Err(_) if !w.is_open() => "close: Err; (closed)".to_string(),
                 Err(_) => match w.close() {
                     Ok(()) => "close: Err; close: Ok".to_string(),
                     Err(_) => "close: Err; close: Err".to_string(),
@@ -199,9 +204,13 @@ fn run_writer(s: &WriterScenario, path: &std::path::Path, pattern: u64, limit: u
                     unsafe { w.push_int((i as u64).wrapping_mul(0x9E37_79B9_7F4A_7C15) ^ pattern, width) };
                 }
             });
-            // The limit stays in force: whatever is called next on the same writer, a close() that returns
-            // Ok claims a complete file.
+            // The limit stays in force: a writer that still says it is open and then returns Ok from close()
+            // claims a complete file. (A writer that closed itself on the failure has reported it; closing a
+            // closed writer has no effect by documentation.)
             if pushed.is_err() {
+                if !w.is_open() {
+                    return "push: panic; (closed)".to_string();
+                }
                 return match w.close() {
                     Ok(()) => "push: panic; close: Ok".to_string(),
                     Err(_) => "push: panic; close: Err".to_string(),
@@ -209,6 +218,7 @@ fn run_writer(s: &WriterScenario, path: &std::path::Path, pattern: u64, limit: u
             }
             match w.close() {
                 Ok(()) => "success".to_string(),
+                Err(_) if !w.is_open() => "close: Err; (closed)".to_string(),
                 Err(_) => match w.close() {
                     Ok(()) => "close: Err; close: Ok".to_string(),
                     Err(_) => "close: Err; close: Err".to_string(),
@@ -237,7 +247,7 @@ fn check_writer(ctx: &mut Ctx, s: &WriterScenario, limit: u64) {
     let complete = file == reference;
     let ok = match outcome.as_str() {
         "success" | "push: panic; close: Ok" | "close: Err; close: Ok" => complete,
-        "new: Err" | "push: panic; close: Err" | "close: Err; close: Err" => true,
+        "new: Err" | "push: panic; close: Err" | "close: Err; close: Err" | "push: panic; (closed)" | "close: Err; (closed)" => true,
         _ => false,
     };
     if (limit as usize) < reference.len() {
